@@ -85,6 +85,8 @@ def native_of(T_, mv):
                 raise ValueError("model list too long to materialise (%d elements)" % mv["list_len"])
             return head + [head[-1]] * (mv["list_len"] - len(head))
         return [native_of(T_.elem, x) for x in mv]
+    if isinstance(T_, TDict):
+        return {k: native_of(ft, mv["dict"][k]) for k, ft in T_.fields.items()}
     if isinstance(T_, TMap):
         if "entries" not in mv:
             raise ValueError("model has no entries for the map")
